@@ -76,6 +76,12 @@ func Generate(o Options) Package {
 	pieces = append(pieces, piece{"measure", "func measure(s Shape) uint64 {\n\treturn s.area() + s.scale(3)\n}\n"})
 	pieces = append(pieces, piece{"Bag", "type Bag struct {\n\titems []uint64\n\tn uint64\n}\n"})
 	pieces = append(pieces, piece{"mkItems", "func mkItems(n uint64, v uint64) []uint64 {\n\ts := make([]uint64, n)\n\tfor i := uint64(0); i < n; i++ {\n\t\ts[i] = v + i\n\t}\n\treturn s\n}\n"})
+	pieces = append(pieces, piece{"mkAdder", "func mkAdder(a uint64) func(uint64) uint64 {\n\treturn func(b uint64) uint64 {\n\t\treturn a*10 + b\n\t}\n}\n"})
+	pieces = append(pieces, piece{"pick2", "func pick2[T any](x T, y T, first bool) T {\n\tif first {\n\t\treturn x\n\t}\n\treturn y\n}\n"})
+	pieces = append(pieces, piece{"G0", fmt.Sprintf("var G0 uint64 = %s\n", g.lit(U64))})
+	pieces = append(pieces, piece{"Cell", "type Cell struct {\n\tv uint64\n\tw uint32\n}\n"})
+	pieces = append(pieces, piece{"Cell.get", "func (c *Cell) get(k uint64) uint64 {\n\treturn c.v + k\n}\n"})
+	pieces = append(pieces, piece{"cellSum", "func cellSum(c Cell) uint64 {\n\treturn c.v + uint64(c.w)\n}\n"})
 	pieces = append(pieces, piece{"fmt2", "func fmt2(s string, x uint64) (uint64, string) {\n\treturn uint64(len(s)) + x, s + \"!\"\n}\n"})
 	g.funcs = append(g.funcs, FuncSig{Name: "recsum", Params: []Var{{Name: "n", T: U8}, {Name: "acc", T: U64}}, Results: []Ty{U64}, Pure: false})
 	// functions
